@@ -62,7 +62,7 @@ theorem named_statements_blocked (s : St) (a : Args) (hp : s.prot = true) (hpre 
     step false s (.stmt .all_memory_bsave_ a) = (.ifc, s) ∧
     step false s (.stmt .all_memory_poke_ a) = (.ifc, s) ∧
     step false s (.stmt .all_memory_bload_ a) = (.ifc, s) ∧
-    (a.mode ≠ 2 → step false s (.stmt .save_ a) = (.ifc, s)) ∧
+    (a.mode ≠ 2 ∨ a.devD = true → step false s (.stmt .save_ a) = (.ifc, s)) ∧
     (a.hasLine = true → step false s (.stmt .merge_ a) = (.ifc, s)) ∧
     (a.merge = true → step false s (.stmt .chain_ a) = (.ifc, s)) := by
   have c1 : classify .list_ = some ⟨.emit, .always, .none⟩ := by decide +kernel
@@ -83,7 +83,10 @@ theorem named_statements_blocked (s : St) (a : Args) (hp : s.prot = true) (hpre 
   · simp [step, c5, hpre, hp, blocked]
   · simp [step, c6, hpre, hp, blocked]
   · simp [step, c7, hpre, hp, blocked]
-  · intro h; simp [step, c8, hpre, hp, blocked, h]
+  · intro h
+    rcases h with h | h
+    · by_cases hd : a.devD = true <;> simp [step, c8, hpre, hp, blocked, effMode, h, hd]
+    · simp [step, c8, hpre, hp, blocked, effMode, h]
   · intro h; simp [step, c9, hpre, hp, blocked, h]
   · intro h; simp [step, c10, hpre, hp, blocked, h]
 
@@ -101,10 +104,34 @@ theorem read_data_counterexample :
 
 /-- SAVE in protected form is never stopped by the flag (direct mode or program), discloses nothing and
     leaves the flags alone. -/
-theorem save_p_allowed (run : Bool) (s : St) (a : Args) (hm : a.mode = 2) (hpre : a.preErr = none) :
+theorem save_p_allowed (run : Bool) (s : St) (a : Args) (hm : a.mode = 2) (hd : a.devD = false)
+    (hpre : a.preErr = none) :
     step run s (.stmt .save_ a) = (.pass .none, s) := by
   have c8 : classify .save_ = some ⟨.emitUnlessP, .unlessP, .none⟩ := by decide +kernel
-  simp [step, c8, hpre, blocked, hm, materialise, applyEffect]
+  simp [step, c8, hpre, blocked, effMode, hd, hm, materialise, applyEffect]
+
+/-- The guard of SAVE looks at the type of the file that was actually opened, the same value that selects
+    the output format: on a device that ignores the requested type (LPTn:, PRN report 'D' and would get the
+    plain listing) a protected program is refused whatever mode letter the statement carries — also `,P`;
+    and whenever SAVE is let through on a protected program, what is written is the protected form. -/
+theorem save_typeless_device_blocked (run : Bool) (s : St) (a : Args) (hp : s.prot = true)
+    (hd : a.devD = true) (hpre : a.preErr = none) :
+    step run s (.stmt .save_ a) = (.ifc, s) := by
+  have c8 : classify .save_ = some ⟨.emitUnlessP, .unlessP, .none⟩ := by decide +kernel
+  simp [step, c8, hpre, blocked, effMode, hd, hp]
+
+theorem save_through_is_protected_form (run : Bool) (s : St) (a : Args) (hp : s.prot = true) (d : Danger)
+    (h : (step run s (.stmt .save_ a)).1 = .pass d) : d = .none ∧ effMode a = 2 := by
+  have c8 : classify .save_ = some ⟨.emitUnlessP, .unlessP, .none⟩ := by decide +kernel
+  simp only [step, c8] at h
+  cases hpre : a.preErr with
+  | some n => simp [hpre] at h
+  | none =>
+    simp only [hpre, blocked, hp, Bool.true_and] at h
+    by_cases he : effMode a = 2
+    · simp [he, materialise] at h
+      exact ⟨h.symm, he⟩
+    · simp [he] at h
 
 /-! ### the flag cannot be cleared from direct mode -/
 
